@@ -256,7 +256,13 @@ def all_prop_ids() -> List[str]:
 
 
 def known_findings(pid: str) -> List[Dict[str, Any]]:
-    f = VERIF / 'known_findings.json'
+    """Entries of /verif/findings/<pid>.json (committed; never written at run time).
+
+    kind "finding": {"property", "kind", "key", "witness", "what"} - a recorded genuine defect:
+        judge failures whose finding_key() equals "key" print KNOWN-FINDING instead of VIOLATION.
+    kind "fixed":   {"property", "kind", "commit", "what"} - for the record, suppresses nothing.
+    """
+    f = VERIF / 'findings' / f'{pid}.json'
     if not f.exists():
         return []
     return [e for e in json.loads(f.read_text()) if e.get('property') == pid]
